@@ -86,11 +86,16 @@ def run_families(name: str, cases: List[Case], rng: random.Random,
     good: List[Case] = rep["cases"]
     violations: List[dict] = []
     oracle_fail: Dict[int, dict] = {}
+    oracle_errors: List[str] = []
     if oracle is not None:
         for c in good:
             try:
                 r = oracle(c)
             except HarnessError:
+                r = None
+            except Exception as e:  # an oracle bug must never pass silently
+                import traceback
+                oracle_errors.append(f"{type(e).__name__}: {e} @ {traceback.format_exc(limit=3)[-300:]}")
                 r = None
             if r:
                 oracle_fail[id(c)] = r
@@ -152,6 +157,8 @@ def run_families(name: str, cases: List[Case], rng: random.Random,
         "traces_validated_against_impl": len(good),
         "mismatches": len(rep["mismatches"]),
         "harness_errors": nhe,
+        "oracle_errors": len(oracle_errors),
+        "oracle_error_first": oracle_errors[:1],
         "outcome_distribution": dict(dist),
         "validator_kinds": dict(kinds),
         "modes": dict(modes),
